@@ -27,6 +27,7 @@ func StampLines(g int) []string {
 		fmt.Sprintf("+ns%d.example.com,%s,60", g, ip(5)),
 		fmt.Sprintf("+www.example.com,%s,60", ip(1)),
 		fmt.Sprintf("+www.example.com,%s,60,,l1", ip(11)),
+		fmt.Sprintf("+www.example.com,%s,60,,l2", ip(12)),
 		fmt.Sprintf("+www.example.com,2001:db8:%x::1,60", g),
 		fmt.Sprintf("'txt.example.com,g=%d,60", g),
 		fmt.Sprintf("@example.com,,mail.example.com,%d,60", g),
@@ -48,6 +49,10 @@ var stampFixed = []string{
 	"+vkey.example.com,10.255.255.99,60",
 	"%l1,10.0.0.0/8",
 	"%l1,2001:db8::/32",
+	"8www.example.com,e1",
+	"8*.w.example.com,e1",
+	"%l1,10.0.0.0/8,e1",
+	"%l2,192.0.2.0/24,e1",
 }
 
 // StampText renders generation g; withKey=false leaves the validation key out.
